@@ -109,16 +109,38 @@ def _json_funcs(ctx) -> Tuple[Func, Func, Optional[Func]]:
     if parse is None or stringify is None:
         raise AnalysisError("JSON.parse / JSON.stringify natives not found")
     factory = stringify.parent
+    inside = []
     for f in ctx.tree.funcs:
         g = f.parent
         while g is not None and g is not factory:
             g = g.parent
-        if g is not factory or f is stringify:
-            continue
-        rec = any(isinstance(n, ast.Call) and isinstance(n.func, ast.Name) and n.func.id == f.name for n in f.own_nodes())
-        props = any(isinstance(n, ast.For) and "_properties" in norm(n.iter) for n in f.own_nodes())
-        if rec and props:
+        if g is factory and f is not stringify and not isinstance(f.node, ast.Lambda):
+            inside.append(f)
+    by_name = {f.name: f for f in inside}
+
+    def callees(f: Func) -> Set[str]:
+        return {n.func.id for n in f.own_nodes() if isinstance(n, ast.Call) and isinstance(n.func, ast.Name) and n.func.id in by_name}
+
+    def reaches_itself(f: Func) -> bool:
+        seen: Set[str] = set()
+        work = list(callees(f))
+        while work:
+            x = work.pop()
+            if x == f.name:
+                return True
+            if x not in seen:
+                seen.add(x)
+                work.extend(callees(by_name[x]))
+        return False
+
+    # the converter: the (directly or mutually) recursive closure that classifies the value by type
+    for f in inside:
+        if reaches_itself(f) and any(isinstance(n, ast.Call) and norm(n.func) == "isinstance" for n in f.own_nodes()) and any(isinstance(n, ast.Return) and isinstance(n.value, ast.Constant) and n.value.value == "null" for n in f.own_nodes()):
             conv = f
+    if conv is None:
+        for f in inside:
+            if reaches_itself(f) and any(isinstance(n, ast.For) and "_properties" in norm(n.iter) for n in f.own_nodes()):
+                conv = f
     return parse, stringify, conv
 
 
@@ -178,6 +200,18 @@ def rule_json_omission(ctx, rep, rid: str) -> None:
         raise AnalysisError("the recursive JSON value converter was not found")
     key = f"{conv.qual}:object-omission"
     loop = next((n for n in conv.own_nodes() if isinstance(n, ast.For) and "_properties" in norm(n.iter)), None)
+    if loop is None:
+        # the member loop lives in a helper closure of the same factory (mutually recursive with the converter)
+        for f in ctx.tree.funcs:
+            g = f.parent
+            while g is not None and g is not stringify:
+                g = g.parent
+            if g is stringify and any(isinstance(n, ast.Call) and isinstance(n.func, ast.Name) and n.func.id == conv.name for n in f.own_nodes()):
+                loop = next((n for n in f.own_nodes() if isinstance(n, ast.For) and "_properties" in norm(n.iter)), None)
+                if loop is not None:
+                    break
+    if loop is None:
+        raise AnalysisError("the loop over an object's properties was not found in the JSON converter")
     valvar = loop.target.elts[1].id if isinstance(loop.target, ast.Tuple) and len(loop.target.elts) == 2 and isinstance(loop.target.elts[1], ast.Name) else None
     ok = False
     obj_filter = None
